@@ -701,8 +701,13 @@ class SkipSegments:
             except Exception as e:
                 bad.append({'kinds': kinds, 'error': repr(e)})
                 continue
-            if len(segs) != len(kinds) or pre or [ast.unparse(s) for s in tail] != ['_result = None', '_status = True'] \
-                    or len(head) != 1 or ast.unparse(head[0].value) != '_pos':
+            tail_txt = [ast.unparse(s) for s in tail]
+            # TAIL: sets (None, True); anything else it does is an assignment that leaves the registers, the position and the text alone
+            tail_ok = '_result = None' in tail_txt and '_status = True' in tail_txt and all(
+                isinstance(s, ast.Assign) and all(isinstance(t, ast.Name) and (ast.unparse(s) in ('_result = None', '_status = True') or
+                                                                                  (t.id.startswith('_') and t.id not in ('_pos', '_text', '_ctx', '_result', '_status')))
+                                                  for t in s.targets) and not any(isinstance(x, (ast.Call, ast.Yield)) for x in ast.walk(s)) for s in tail)
+            if len(segs) != len(kinds) or pre or not tail_ok or len(head) != 1 or ast.unparse(head[0].value) != '_pos':
                 bad.append({'kinds': kinds, 'error': 'frame of the emission (HEAD / TAIL / one segment per item)', 'src': src})
                 continue
             for i, sg in enumerate(segs):
